@@ -317,17 +317,15 @@ fn check_asn1(c: &Asn1Case) -> CaseResult {
     let pk = lib_pk(&q).map_err(|e| Fail { key: "entry=Sm2PublicKey::new input=valid-point outcome=rejected".into(), detail: e })?;
     let sk = lib_sk(&d).map_err(|e| Fail { key: "entry=Sm2PrivateKey::new input=d-in-[1,n-2] outcome=rejected".into(), detail: e })?;
     let k2 = from_be(&expand_bytes(c.msg_seed ^ 0xa5a1, 32)) % (n - 1u32) + 1u32;
-    let (r, _) = with_sm2_candidates(vec![to32(&k), to32(&k2)], || pk.encrypt_asn1(&msg, c.compressed, model(c.c1c3c2)));
+    let (r, left) = with_sm2_candidates(vec![to32(&k), to32(&k2)], || pk.encrypt_asn1(&msg, c.compressed, model(c.c1c3c2)));
     let cfg = format!("compressed={} model={}", c.compressed, if c.c1c3c2 { "C1C3C2" } else { "C1C2C3" });
     let doc = match r {
         Ok(Ok(v)) => v,
         Ok(Err(e)) => return fail("entry=Sm2PublicKey::encrypt_asn1 input=valid outcome=err", format!("{}: {:?}", cfg, e)),
         Err(p) => return fail(format!("entry=Sm2PublicKey::encrypt_asn1 input=valid({}) outcome=panic", if c.compressed { "compressed" } else { "uncompressed" }), format!("{}: {}", cfg, p)),
     };
-    let want = match r2::encrypt_with_k(&q, &msg, &k) {
-        Some(w) => w,
-        None => r2::encrypt_with_k(&q, &msg, &k2).ok_or_else(|| Fail { key: "harness: two retries".into(), detail: "".into() })?,
-    };
+    let k = if left == 1 { k } else { k2 }; // the nonce actually used is the last candidate consumed
+    let want = r2::encrypt_with_k(&q, &msg, &k).ok_or_else(|| Fail { key: "entry=Sm2PublicKey::encrypt_asn1 outcome=used-a-nonce-that-needs-retry".into(), detail: format!("k={:x}", k) })?;
     let (x, y) = r2::xy(&want.c1).unwrap();
     let parsed = der::parse_sm2_cipher(&doc).ok_or_else(|| Fail { key: "entry=Sm2PublicKey::encrypt_asn1 outcome=not-a-GM/T-0009-SM2Cipher".into(), detail: format!("{}: {}", cfg, hex::encode(&doc)) })?;
     ensure!(parsed.x == from_be(&x) && parsed.y == from_be(&y) && parsed.c3 == want.c3 && parsed.c2 == want.c2, "entry=Sm2PublicKey::encrypt_asn1 outcome=wrong-fields",
